@@ -2,13 +2,25 @@
 C02 — the type system a JSON document carries is sufficient: loading a document written with `TypeSystemMode.FULL`
 *without* supplying a type system reconstructs the original type system.
 
-For every type system built through the API (any history of `create_type` / `create_feature` that declares features on user
-types other than DocumentAnnotation), the type system the loader builds from the `%TYPES` section of a FULL document — the
-embedded declarations are created supertypes first, then their features, and the result is merged into a fresh type system
-— declares the same under every name: same supertype, description, children and effective features (`SameTs`,
-`Spec/MergeSelf.lean`).  The MINIMAL counterpart is `closure_sufficient` (`C02Closure.lean`): the declared subset is closed.
+For every type system built through the API (any history of `create_type` / `create_feature` that declares features on
+user types other than DocumentAnnotation) that the `%TYPES` format can carry (`Writable`, `Spec/EmbeddedTs.lean`: no
+empty descriptions, no element type on primitive-array features, no primitive element type on FSArray features, no
+non-array range named `…[]`, no type named `DocumentAnnotation` without namespace), the type system the loader builds
+from the `%TYPES` section of a FULL document — the embedded declarations are created supertypes first, then their
+features, and the result is merged into a fresh type system — declares the same under every name: same supertype,
+description, children and effective features (`SameTs`, `Spec/MergeSelf.lean`).  The MINIMAL counterpart is
+`closure_sufficient` (`C02Closure.lean`): the declared subset is closed.
+
+The statement without the hypothesis `hw` is false:
+`json_full_ts_same_as_given_false` below (kernel-checked, `Proofs/EmbeddedTsRefute.lean`); every clause of `Writable`
+is forced by an evaluated counterexample (`Proofs/EmbeddedTsCounter.lean`), each reproduced on the implementation.
+`NoPercentNames` is not used by the proof: it marks the region (feature names starting with `%`) in which the model of the
+`%TYPES` reader/writer is known not to follow the code, so the theorem does not speak about it.
 -/
 import CassisModel.Proofs.EmbeddedTs
+import CassisModel.Proofs.EmbeddedTsDemo
+import CassisModel.Proofs.EmbeddedTsRefute
+import CassisModel.Proofs.EmbeddedTsCounter
 
 namespace Cassis.Json
 open Cassis.TS
@@ -19,12 +31,40 @@ def UserOnlyNoDoc (K : Consts) (ops : List TsOp) : Prop :=
     | .createFeature dom _ _ _ _ _ => dom ≠ DOCUMENT_ANNOTATION
     | .createType _ _ _ => True
 
-/-- **the embedded FULL type system reproduces the original** -/
+/-- **the embedded FULL type system reproduces the original** (for type systems the `%TYPES` format can carry) -/
 theorem json_full_ts_same (ops : List TsOp) (h : UserOnlyNoDoc Gen.consts ops)
+    (hw : Writable Gen.consts (ops.foldl (applyOp Gen.consts) Gen.builtinTS))
+    (_hpc : NoPercentNames (ops.foldl (applyOp Gen.consts) Gen.builtinTS))
     (cass : List Cas) (ci : Nat) (hp : Heap) (doc : JDoc) (st : Traverse.St)
     (hsave : saveJson Gen.consts (ops.foldl (applyOp Gen.consts) Gen.builtinTS) cass ci hp .full = .ok (doc, st)) :
     ∃ ts', loadTs Gen.consts Gen.builtinTS true doc = .ok ts' ∧
       SameTs (ops.foldl (applyOp Gen.consts) Gen.builtinTS) ts' :=
-  json_full_ts_same_aux ops h cass ci hp doc st hsave
+  json_full_ts_same_aux ops h hw cass ci hp doc st hsave
+
+/-- without `Writable` the statement is false (`create_type("x.A", "uima.cas.TOP", description="")`: the empty
+    description is not written) -/
+theorem json_full_ts_same_needs_writable :
+    ¬ (∀ (ops : List TsOp), UserOnlyNoDoc Gen.consts ops →
+        ∀ (cass : List Cas) (ci : Nat) (hp : Heap) (doc : JDoc) (st : Traverse.St),
+          saveJson Gen.consts (ops.foldl (applyOp Gen.consts) Gen.builtinTS) cass ci hp .full = .ok (doc, st) →
+          ∃ ts', loadTs Gen.consts Gen.builtinTS true doc = .ok ts' ∧
+            SameTs (ops.foldl (applyOp Gen.consts) Gen.builtinTS) ts') :=
+  json_full_ts_same_as_given_false
+
+/-! Non-vacuity: the hypotheses hold on a history with a chain, a type without namespace, a user subtype of
+`uima.cas.String`, a subtype of DocumentAnnotation, a feature redefined identically on a subtype, the reserved feature
+name `self`, array ranges with and without element type, `multipleReferencesAllowed` (`Proofs/EmbeddedTsDemo.lean`);
+`Writable` is decidable and evaluated by the kernel. -/
+example : UserOnlyNoDoc Gen.consts demoOps ∧
+    Writable Gen.consts (demoOps.foldl (applyOp Gen.consts) Gen.builtinTS) ∧
+    ∃ doc st, saveJson Gen.consts (demoOps.foldl (applyOp Gen.consts) Gen.builtinTS) [Cas.empty] 0 [] .full = .ok (doc, st) := by
+  rw [demo_eq]
+  exact ⟨⟨demo_userOnly, demo_noDoc⟩, demo_writable, demo_save⟩
+
+example : ∃ doc st ts', saveJson Gen.consts demoTs [Cas.empty] 0 [] .full = .ok (doc, st) ∧
+    loadTs Gen.consts Gen.builtinTS true doc = .ok ts' ∧ SameTs demoTs ts' := demo_full_ts_same
 
 end Cassis.Json
+
+#print axioms Cassis.Json.json_full_ts_same
+#print axioms Cassis.Json.json_full_ts_same_needs_writable
